@@ -190,6 +190,23 @@ def replay(ctx, path):
     raise SystemExit(2)
 
 
+def run_aba(ctx, binary):
+    """The generation cycle: a reader stalled inside its copy while exactly c x 32767 publications
+    complete (KNOWN_FINDINGS.txt). Returns (violations, stats, samples)."""
+    parts = run_single(ctx, binary, ["aba", "--seed", str(ctx.seed)], 4, 1800)
+    aba = {"evaluations": 0, "blends_accepted": 0}
+    viol = crash_violations(parts)
+    samples = []
+    for p in parts:
+        if p is None or p.get("_crashed"):
+            continue
+        aba["evaluations"] += p["evaluations"]
+        aba["blends_accepted"] += p["blends_accepted"]
+        viol += p["violations"]
+        samples += p["samples"][:1]
+    return viol, aba, samples
+
+
 # ------------------------------------------------------------------ proc engine
 def run_proc(ctx, seconds, nreaders=3, ngroups=4):
     """Real processes, production build (guard off): writers killed with SIGKILL at random instants and
@@ -302,7 +319,9 @@ def run_proc(ctx, seconds, nreaders=3, ngroups=4):
                         agg["reader_error_returns"] = agg.get("reader_error_returns", 0) + j["errors"]
                         agg["publication_changes_seen"] += j["changes"]
                         for v in j["violations"]:
-                            viol.append({"sig": "proc-" + v.split(":")[0].split()[1], "detail": v, "replay": ""})
+                            kind = v.split(":")[0].split()[1]
+                            # (the generation cycle is one finding, whichever engine meets it)
+                            viol.append({"sig": kind if kind == "generation-aba-blend" else "proc-" + kind, "detail": v, "replay": ""})
                 if r.returncode != 0:
                     viol.append({"sig": "reader-process-died", "detail": "a reader process exited with status %s" % r.returncode, "replay": ""})
     finally:
